@@ -134,6 +134,18 @@ def check_send_data(ctx, cls, func):
                        "a truthy return is reached only through the normal end of the send loop" if ok else
                        f"`{r.text()}` is reachable without the send loop having finished",
                        key="success-after-loop " + r.text(), where=func.where)
+        # the first pass is always made, and the normal end of the loop is reported as success
+        if isinstance(test, ast.Name):
+            inits = [n for n in cfg.real_nodes() if isinstance(n.ast, ast.Assign) and any(isinstance(t_, ast.Name) and t_.id == test.id for t_ in n.ast.targets) and cfg.dominates(n, test_node) and not cfg.path_exists(test_node, n)]
+            ok = bool(inits) and all(isinstance(n.ast.value, ast.Constant) and bool(n.ast.value.value) for n in inits)
+            ctx.ob("C10.P1", q, ok, "the send loop is entered at least once" if ok else
+                   f"the loop flag `{test.id}` is not initialised to a true constant: the loop body may never run, nothing is written and the call still reports success",
+                   key="enters-loop " + key, where=func.where)
+        after = [r for r in cfg.real_nodes() if isinstance(r.ast, ast.Return) and cfg.dominates(false_marker, r)]
+        ok = bool(after) and all(isinstance(r.ast.value, ast.Constant) and r.ast.value.value is True for r in after)
+        ctx.ob("C10.P1", q, ok, "when every byte was accepted the call returns True" if ok else
+               f"after the send loop ended normally the call returns {[r.text() for r in after] or 'nothing'}: a completely written block is reported as failed (the sender resends or aborts the message)",
+               key="success-value " + key, where=func.where)
         # ---------------- P2 error path
         tries = _enclosing_try(fn, S)
         handlers = []
